@@ -884,6 +884,37 @@ def harness_stage(ctx, exe, ncases):
         ctx.coverage["ker2e_certificates"] = dict(checked=len(cert), rejected=len(rejected))
         for x, v in rejected[:2]:
             found.append((("ker44two:" + x[1][9:130], "ibz_4x4_right_ker_mod_power_of_2: returned vector rejected by the proved-sound Lean checker (not a primitive kernel vector)"), x[1], x[2], "checker:" + v))
+    # certificate pass 2: outputs of the real ibz_mat_howell / ibz_mat_right_ker_mod through the Lean checker matMulCheck
+    # (theorem SqiProps.C17.mat_mul_check_sound):  [0|mat]*trans = howell (mod m)   and   mat*ker = 0 (mod m)
+    cert2 = []
+    for (suite, line), c in zip(cases, cout):
+        t = line.split()
+        if t[0] not in ("howell", "kermod") or c.startswith("<"):
+            continue
+        try:
+            rows, cols, m = int(t[1], 16), int(t[2], 16), t[3]
+            es = t[4:]
+            R = c.split()
+            if t[0] == "kermod":
+                zero = ["0"] * (rows * cols)
+                cert2.append(("chkmul %x %x %x %s %s %s %s" % (rows, cols, cols, m, " ".join(es), " ".join(R), " ".join(zero)), line, c))
+            else:
+                bar = R.index("|"); H = R[1:bar]; T = R[bar + 1:]
+                n1 = rows + 1; extra = n1 - cols
+                A = []
+                for i in range(rows):
+                    A += ["0"] * extra + es[i * cols:(i + 1) * cols]
+                cert2.append(("chkmul %x %x %x %s %s %s %s" % (rows, n1, n1, m, " ".join(A), " ".join(T), " ".join(H)), line, c))
+        except (ValueError, IndexError):
+            cert2.append(("chkmul 0", line, c))
+    if cert2:
+        verd = ctx.driver([x[0] for x in cert2])
+        rej = [(x, v) for x, v in zip(cert2, verd) if v != "1"]
+        ctx.obligation("Lean certificate checker accepts every output of the real ibz_mat_howell / ibz_mat_right_ker_mod (%d matrices)" % len(cert2),
+                       not rej, json.dumps([dict(op=x[1][:200], impl=x[2][:200], checker=v) for x, v in rej[:3]])[:600])
+        ctx.coverage["howell_certificates"] = dict(checked=len(cert2), rejected=len(rej))
+        for x, v in rej[:2]:
+            found.append((((x[1].split()[0] + ":" + " ".join(x[1].split()[1:])[:120]), "ibz_mat_howell / ibz_mat_right_ker_mod: output rejected by the proved-sound Lean checker (matrix identity modulo m fails)"), x[1], x[2], "checker:" + v))
     ctx.coverage["generator_histogram"] = dict(sorted(g.hist.items()))
     ctx.coverage["oracle_failures_total"] = len(found)
     ctx.coverage["primes_used"] = len(g.primes)
